@@ -114,6 +114,11 @@ pub fn gen_programs_n(nrep: usize, depth: usize, f: &mut dyn FnMut(&Vec<O>, &Vec
     rec(reps.clone(), vec![vec![]; nrep], vec![], String::new(), depth, f);
 }
 
+/// C04 (builder clause): `rm(member, ctx)` asks for the removal of exactly `member` under exactly the context the caller observed
+fn check_rm_op(r: &mut Report, op: &Op<u8, u8>, m: u8, seen: &VClock<u8>, desc: &dyn Fn() -> String) {
+    let ok = match op { Op::Rm { clock, members } => clock == seen && members.len() == 1 && members.contains(&m), _ => false };
+    r.case("orswot.rm_op_is_the_observed_context", ok, desc, &|| format!("rm({}) under context {:?} built {:?}", m, seen, op));
+}
 fn lcg(s: &mut u64) -> u64 { *s = s.wrapping_mul(6364136223846793005).wrapping_add(1442695040888963407); *s >> 33 }
 
 /// random programs (3 replicas, members {0,1,2}): longer histories than the exhaustive phase reaches, e.g. several
@@ -131,10 +136,12 @@ fn random_walks(r: &mut Report, n: usize, len: usize, seed: u64) {
             let actor = (i + 1) as u8;
             match lcg(&mut s) % 8 {
                 0 | 1 => { let m = (lcg(&mut s) % 3) as u8; let op = reps[i].add(m, reps[i].read().derive_add_ctx(actor)); reps[i].apply(op.clone()); known[i].push(op.clone()); all.push(op); desc.push_str(&format!(" r{}:add({})", i, m)); }
-                2 => { let m = (lcg(&mut s) % 3) as u8; let op = reps[i].rm(m, reps[i].contains(&m).derive_rm_ctx()); reps[i].apply(op.clone()); known[i].push(op.clone()); all.push(op); desc.push_str(&format!(" r{}:rm({})", i, m)); }
+                2 => { let m = (lcg(&mut s) % 3) as u8; let seen = reps[i].contains(&m).derive_rm_ctx().clock; let op = reps[i].rm(m, reps[i].contains(&m).derive_rm_ctx()); check_rm_op(r, &op, m, &seen, &|| format!("{} r{}:rm({})", desc, i, m)); reps[i].apply(op.clone()); known[i].push(op.clone()); all.push(op); desc.push_str(&format!(" r{}:rm({})", i, m)); }
                 3 => {
                     // two removes from ONE read context (same clock, different members)
                     let ops: Vec<Op<u8, u8>> = (0..2u8).map(|m| reps[i].rm(m, reps[i].read().derive_rm_ctx())).collect();
+                    let seen = reps[i].read().derive_rm_ctx().clock;
+                    for (m, op) in ops.iter().enumerate() { check_rm_op(r, op, m as u8, &seen, &|| format!("{} r{}:rm({})@read", desc, i, m)); }
                     for op in ops { reps[i].apply(op.clone()); known[i].push(op.clone()); all.push(op); }
                     desc.push_str(&format!(" r{}:rm(0),rm(1)@read", i));
                 }
